@@ -63,13 +63,18 @@ def _expr(form):
         "call": ["call", V("<func>f"), [V("b")], []], "callkw": ["call", V("<func>f"), [V("m")], [["k", V("n")]]],
         "pow": ["pow", V("<state>y"), C(2)], "quot": ["quot", V("b"), V("m")], "neg": ["prod", [C(-1), V("<p>q")]],
         "statevar": V("<state>y"), "pvar": V("<p>q"), "cmp": CMP("<", V("<dt>"), V("m")),
+        "ifnested": IF(CMP("<", V("a"), V("n")), IF(CMP("<", V("b"), V("m")), V("b"), V("<p>q")), V("m")),
+        "ifrepeat": S(IF(CMP("<", V("a"), V("n")), IF(CMP("<", V("b"), V("m")), V("b"), V("<p>q")), C(0)),
+                      IF(CMP("<", V("b"), V("m")), V("b"), V("<p>q"))),
     }[form]
 
 
 def shape_calls(sh):
     """Instantiate one StmtGen shape with the variable pool of this module (list of builder calls)."""
     loops = {"none": [], "zero_to_var": [["i", C(0), V("n")]], "var_to_var": [["i", V("n"), V("m")]],
-             "two_dependent": [["i", C(0), V("n")], ["j", V("i"), V("m")]]}[sh["loops"]]
+             "two_dependent": [["i", C(0), V("n")], ["j", V("i"), V("m")]],
+             "literal_then_var": [["i", C(0), C(2)], ["j", C(0), V("m")]],
+             "three_mixed": [["i", C(0), V("n")], ["j", C(0), C(2)], ["k", V("b"), V("m")]]}[sh["loops"]]
     guard = {"none": None, "cmp": CMP("<", V("a"), V("b")),
              "and": ["and", [CMP(">", V("<state>y"), C(0)), CMP("<", V("n"), C(3))]],
              "statecmp": CMP("<", V("<p>q"), V("<dt>"))}[sh["guard"]]
